@@ -41,8 +41,11 @@ CHECKS["C08"] = mir_check("Backup window decided for all 64-bit final_patch / ba
     "down_to_index == final_patch -. n (All => 0), no backup below the window, a rename gets two backups, applied-patches gets exactly the applied prefix. Bytes under .pc/** are I/O: outside.", "DESIGN.md §2 C08")
 CHECKS["C10"] = mir_check("Guard lemma: a fixpoint over the MIR call graph computes the functions that may reach a file-system writing primitive although dry_run is true; "
     "each driver leaves that set only when z3 shows every call into it unreachable under dry_run == true (and reachable without it). Outcome equality with a real run is outside.", "DESIGN.md §2 C10")
-CHECKS["C15"] = mir_check("Ordering lemma on save_modified_file's MIR: every path reaching File::create for a file that existed has called remove_file before, which succeeded or failed with NotFound. "
+CHECKS["C15"] = mir_check("Ordering lemma on save_modified_file's MIR: every path reaching File::create for a file that existed has called remove_file before, which succeeded or failed with NotFound, and nothing else "
+    "(chmod, open, truncate) touches the existing file before it is unlinked. The lemma rests on `existed` recording the on-disk state: three Kani instances show rename (move_out / move_in / undo) never changes that flag. "
     "Inode identity and untouched files are outside (I/O).", "DESIGN.md §2 C15")
+CHECKS["C15"]["engine"] = "kani+mirvc"
+CHECKS["C15"]["note"] = KANI_NOTE + " " + MIR_NOTE
 CHECKS["C18"] = mir_check("Ok-continuation lemma: applied-patches is written only when the driver returned Ok, an Err never becomes Ok in cmd_push, and main returns status 0 only for Ok(true). "
     "That every individual write error is propagated needs syscall fault injection: outside this technique.", "DESIGN.md §2 C18")
 CHECKS["C13"] = dict(level="model_checking", engine="kani+mirvc",
